@@ -149,7 +149,7 @@ class P:
             self.eat("op", "!")
             self.parens_skip()
             self.eat("op", ";")
-            if name not in ("assert", "debug_assert"):
+            if name not in ("assert", "debug_assert", "debug_assert_eq", "debug_assert_ne"):
                 raise TranslateError("unsupported macro statement %s!" % name)
             return ("skip",)
         e = self.expr()
@@ -230,6 +230,20 @@ class P:
                 self.eat()
                 binder = self.eat("id")
                 self.eat("op", ")")
+            alts = [(v, binder)]
+            while self.at("op", "|"):
+                # `A | B => body`: the same body for each alternative
+                self.eat()
+                k2, v2 = self.peek()
+                if k2 != "id":
+                    raise TranslateError("unsupported match pattern")
+                self.eat()
+                b2 = None
+                if self.at("op", "("):
+                    self.eat()
+                    b2 = self.eat("id")
+                    self.eat("op", ")")
+                alts.append((v2, b2))
             self.eat("op", "=>")
             if self.at("op", "{"):
                 body = self.block()
@@ -237,7 +251,8 @@ class P:
                 body = [("tail", self.expr())]
             if self.at("op", ","):
                 self.eat()
-            arms.append((v, binder, body))
+            for (va, ba) in alts:
+                arms.append((va, ba, body))
         self.eat("op", "}")
         return ("match", scrut, arms)
 
@@ -452,6 +467,10 @@ def tr(e, env):
             return tr(args[0], env)
         if f == "ptr::null" and not args:
             return "(none : Option Nat)"
+        if f in ("std::cmp::min", "cmp::min", "core::cmp::min", "min") and len(args) == 2:
+            return "(min %s %s)" % (tr(args[0], env), tr(args[1], env))
+        if f in ("std::cmp::max", "cmp::max", "core::cmp::max", "max") and len(args) == 2:
+            return "(max %s %s)" % (tr(args[0], env), tr(args[1], env))
         if env.opts.get("decode") and len(args) == 1:
             a = args[0]
             if f == "Ok":
